@@ -64,7 +64,7 @@ def make_marked_twin(crate_dir, name):
             # an `#[async_trait]` directly below entrait is consumed by entrait (re-applied to what it
             # generates, not to the original): drop it from the twin as well so the twin keeps the
             # user's `async fn`s as written
-            m2 = re.match(r"\s*#\[\s*(?:::)?(?:async_trait::)?async_trait(?:\([^\]]*\))?\s*\]", src[i:])
+            m2 = re.match(r"\s*#\[\s*(?:::)?(?:\w+\s*::\s*)*async_trait(?:\([^\]]*\))?\s*\]", src[i:])
             if m2:
                 i += m2.end()
                 text += " #[async_trait]"
